@@ -12,6 +12,7 @@ package main
 // C06(c) commitment oracle must hold.
 
 import (
+	"errors"
 	"fmt"
 	"math/big"
 	"sort"
@@ -31,7 +32,10 @@ func init() {
 // "CH": a block from a foreign miner in which q0 spends a denomination-6 output into an output for q1
 // and q1 spends THAT output again (to q2) in the same block - a chain the node's own worker never
 // assembles (it reads inputs from the committed ledger only)
-var c10Ops = []string{"empty", "S6a", "S6b", "S3", "G", "T", "CH"}
+// "DUP": a foreign miner's block with a Qi transaction that names one outpoint twice; Process must
+// refuse the body, i.e. no such block exists (outcome "not applicable"); if it does not, the block is
+// built and every oracle runs on it
+var c10Ops = []string{"empty", "S6a", "S6b", "S3", "G", "T", "CH", "DUP"}
 
 type c10Case struct {
 	A []int `json:"branchA"`
@@ -110,6 +114,24 @@ func c10ApplyOp(s *scen, op int) (bool, error) {
 		second := core.VQiTx(s.n.ChainID(), core.VZoneLoc, []core.VQiIn{{Hash: tx.Hash(), Index: 0, Key: s.q[1]}},
 			[]core.VQiOut{{Denom: 4, Addr: s.q[2].Addr}}, nil, s.q[1])
 		s.extra = []*types.Transaction{second}
+	case "DUP":
+		utxos, _ := core.VScanUtxos(s.n.DB[2])
+		for _, u := range utxos {
+			if string(u.Entry.Address) != string(s.q[0].Addr.Bytes()) || u.Entry.Denomination != 6 {
+				continue
+			}
+			in := core.VQiIn{Hash: u.Hash, Index: u.Index, Key: s.q[0]}
+			var dup *types.Transaction
+			if perr := vx.Guard(func() {
+				dup = core.VQiTxMulti(s.n.ChainID(), core.VZoneLoc, []core.VQiIn{in, in},
+					[]core.VQiOut{{Denom: 6, Addr: s.q[1].Addr}, {Denom: 5, Addr: s.q[2].Addr}}, nil, []*core.VKey{s.q[0], s.q[0]})
+			}); perr != "" || dup == nil {
+				return false, nil
+			}
+			s.extra = []*types.Transaction{dup}
+			return true, nil
+		}
+		return false, nil
 	case "T":
 		to := s.k[1].Addr
 		tx = s.n.QuaiTx(s.k[0], s.nonce(s.k[0]), &to, big.NewInt(5), 21000, scenPrice, nil)
@@ -147,6 +169,10 @@ func c10BuildBranch(prefix []*types.WorkObject, ops []int, salt int64) (*c10Bran
 			return nil, nil // not applicable
 		}
 		blk, err := s.mine(s.opts(core.VBuildOpts{Order: 2, Fill: true, Salt: salt*8 + int64(i)}))
+		var refused core.VForeignRefused
+		if errors.As(err, &refused) {
+			return nil, nil // no valid block with this content exists: not applicable
+		}
 		if err != nil {
 			return nil, fmt.Errorf("branch %v block %d: own block rejected: %w", ops, i, err)
 		}
